@@ -53,6 +53,7 @@ type Run struct {
 	finished    bool
 	inconcl     []string
 	vioKeys     map[string]bool
+	vioKeyN     map[string]int
 }
 
 type finding struct {
@@ -76,7 +77,7 @@ func Start(t *testing.T, id, level string) *Run {
 	r := &Run{T: t, ID: id, Level: level, Tier: "quick", Seed: 1, start: time.Now(),
 		distinct: map[[12]byte]struct{}{}, counters: map[string]int64{}, maxSamples: 6,
 		known: map[string]int{}, requires: map[string]int64{}, extra: map[string]interface{}{},
-		vioKeys: map[string]bool{}}
+		vioKeys: map[string]bool{}, vioKeyN: map[string]int{}}
 	if v := os.Getenv("VERIF_TIER"); v == "thorough" {
 		r.Tier = "thorough"
 	}
@@ -214,13 +215,13 @@ func (r *Run) Violation(key, what string, replay interface{}) bool {
 		}
 	}
 	r.violations++
-	if r.vioKeys[key] && r.violations > 20 {
-		return true // already reported this shape; keep the output bounded
-	}
-	r.vioKeys[key] = true
-	if r.violations > 50 {
+	// at most 3 reports per key and 120 reports in total, so that one noisy defect cannot hide a
+	// different one; everything is still counted
+	r.vioKeyN[key]++
+	if r.vioKeyN[key] > 3 || r.replayN >= 120 {
 		return true
 	}
+	r.vioKeys[key] = true
 	r.replayN++
 	dir := filepath.Join(VerifDir(), "replays")
 	os.MkdirAll(dir, 0755)
@@ -295,6 +296,11 @@ func (r *Run) Finish() {
 		kf[k] = v
 	}
 	cov["known_findings_matched"] = kf
+	vk := map[string]int{}
+	for k, v := range r.vioKeyN {
+		vk[k] = v
+	}
+	cov["violations_by_key"] = vk
 	verdict := "held"
 	if r.violations > 0 {
 		verdict = "violated"
